@@ -556,6 +556,7 @@ func TestLimitTwin(t *testing.T) {
 		if quiet {
 			hl = r.between(1, 12)
 		}
+		lowProbe := algo == "vegas" && !quiet && r.chance(1, 3)
 		var endLast, endMoved, endMax int64 // completion time of the latest sample / of the latest one that moved the estimate
 		for i := 0; i < hl; i++ {
 			if b, set := ref.baseline(); set {
@@ -567,6 +568,11 @@ func TestLimitTwin(t *testing.T) {
 			}
 			if x.rtt > 1<<40 {
 				x.rtt = base * 3
+			}
+			if lowProbe && i == hl-1 && base > 4 {
+				// the history ends with a baseline probe (forced below, after the previous sample) whose RTT is lower than the
+				// baseline it replaces: the pair that follows is judged against the new baseline
+				x.rtt, x.inflight, x.drop = base/2, est, false
 			}
 			if k%2 == 1 {
 				// half of the prepared states are built from samples that carry their start time (completions in order)
@@ -584,6 +590,9 @@ func TestLimitTwin(t *testing.T) {
 			}
 			est = ref.outer.EstimatedLimit()
 			if ref.vegas != nil {
+				if lowProbe && i == hl-2 {
+					ref.vegas.VerifSetProbeJitter(1e-9) // the next sample is a probe (in the twins too: the jitter is replayed)
+				}
 				_, j := ref.vegas.VerifProbe()
 				jit = append(jit, j)
 			}
